@@ -313,4 +313,257 @@ theorem exp_sum_log (l : List ℝ) (h : ∀ c ∈ l, 0 < c) : Real.exp ((l.map R
     simp only [List.map_cons, List.sum_cons, List.prod_cons, Real.exp_add, Real.exp_log hc]
     rw [ih (fun x hx => h x (List.mem_cons_of_mem _ hx))]
 
+/-! ### low-memory class -/
+
+theorem lowTmp_eq_rescTmp (p : Params ℝ) (hp : NonNegP p) (b : Bool) (e : Emis ℝ) (he : NonNegE e) (g : Nat → ℝ)
+    (hg : ∀ j, j < p.n → 0 ≤ g j) : lowTmp p b e (vec p.n g) = rescTmp p b e (vec p.n g) := by
+  have key : ∀ (src : Nat → ℝ), (∀ k, k < p.n → 0 ≤ src k) → ∀ j,
+      clip (e j * sumL (List.zipWith (fun t v => clip (t * v)) (col p j) (vec p.n src)))
+        = e j * ∑ k ∈ range p.n, p.P k j * src k := by
+    intro src hsrc j
+    have h1 : List.zipWith (fun t v => clip (t * v)) (col p j) (vec p.n src) = vec p.n (fun k => p.P k j * src k) := by
+      unfold col vec; rw [zipWith_vec]
+      apply List.map_congr_left; intro k hk
+      exact clip_of_nonneg _ (mul_nonneg (hp.1 k j) (hsrc k (List.mem_range.mp hk)))
+    rw [h1, sumL_vec]
+    exact clip_of_nonneg _ (mul_nonneg (he j) (Finset.sum_nonneg (fun k hk => mul_nonneg (hp.1 k j) (hsrc k (Finset.mem_range.mp hk)))))
+  cases b with
+  | true =>
+    rw [rescTmp_true]
+    simp only [lowTmp, if_true]
+    apply vec_congr; intro j _
+    rw [show piL p = vec p.n p.pi from rfl, key p.pi (fun k _ => hp.2 k) j]
+    unfold restartF; rw [initW_eq]
+  | false =>
+    rw [rescTmp_false p hp e he g hg]
+    simp only [lowTmp, Bool.false_eq_true, if_false]
+    apply vec_congr; intro j _
+    rw [key g hg j]; rfl
+
+/-- sum of the logarithms of the scale factors produced by the rescaled loop -/
+noncomputable def sumLogScales (l : List (List ℝ × ℝ)) : ℝ := (l.map (fun x => Real.log x.2)).sum
+
+theorem lowLoop_eq (p : Params ℝ) (hp : NonNegP p) (m : Nat) (rest : List (Site ℝ)) (hs : NonNegS rest)
+    (g : Nat → ℝ) (hg : ∀ j, j < p.n → 0 ≤ g j) (acc : ℝ) (pending : List ℝ) :
+    lowLoop p m rest (vec p.n g) acc pending = acc + pending.sum + sumLogScales (rescLoop p rest (vec p.n g)) := by
+  induction rest generalizing g acc pending with
+  | nil => simp [lowLoop, rescLoop, sumLogScales, sumL_sortDesc]
+  | cons s rest ih =>
+    obtain ⟨b, e⟩ := s
+    have he : NonNegE e := hs (b, e) (List.mem_cons_self)
+    have hs' : NonNegS rest := fun s hs'' => hs s (List.mem_cons_of_mem _ hs'')
+    have hstep : ∃ t : Nat → ℝ, (∀ j, 0 ≤ t j) ∧ rescTmp p b e (vec p.n g) = vec p.n t := by
+      cases b with
+      | true => exact ⟨restartF p e, restartF_nonneg p hp e he, rescTmp_true p e _⟩
+      | false => exact ⟨stepF p e g, stepF_nonneg p hp e he g hg, rescTmp_false p hp e he g hg⟩
+    obtain ⟨t, ht, htmp⟩ := hstep
+    have hn := normF_nonneg t (∑ i ∈ range p.n, t i) p.n (fun j _ => ht j)
+    simp only [lowLoop, rescLoop, lowTmp_eq_rescTmp p hp b e he g hg, htmp, sumL_vec, normalize_vec]
+    by_cases hfull : pending.length = m
+    · simp only [hfull, beq_self_eq_true, if_true]
+      rw [ih hs' _ hn]
+      simp only [sumLogScales, List.map_cons, List.sum_cons, sumL_sortDesc, List.sum_nil, ScalarReal.log_eq]
+      ring
+    · have : (pending.length == m) = false := by simpa using hfull
+      simp only [this, Bool.false_eq_true, if_false]
+      rw [ih hs' _ hn]
+      simp only [sumLogScales, List.map_cons, List.sum_cons, ScalarReal.log_eq]
+      ring
+
+theorem rescForward_logLik (p : Params ℝ) (e0 : Emis ℝ) (sites : List (Site ℝ)) :
+    (rescForward p e0 sites).logLik = ((rescForward p e0 sites).scales.map Real.log).sum := by
+  unfold rescForward
+  simp only [sumL_sortDesc, List.map_map]
+  rfl
+
+theorem lowForward_eq (p : Params ℝ) (hp : NonNegP p) (m : Nat) (e0 : Emis ℝ) (he0 : NonNegE e0)
+    (sites : List (Site ℝ)) (hs : NonNegS sites) :
+    lowForward p m e0 sites = (rescForward p e0 sites).logLik := by
+  have ht := restartF_nonneg p hp e0 he0
+  rw [rescForward_logLik]
+  unfold lowForward rescForward
+  rw [show restartTmp p e0 = vec p.n (restartF p e0) from rfl]
+  simp only [sumL_vec, normalize_vec, rescLoop_cons_true]
+  rw [lowLoop_eq p hp m sites hs _ (normF_nonneg _ _ p.n (fun j _ => ht j))]
+  simp [sumLogScales, List.map_map, Function.comp_def]
+
+/-! ### log-sum class -/
+
+theorem logsum_log (a b : ℝ) (ha : 0 < a) (hb : 0 < b) : logsum (Real.log a) (Real.log b) = Real.log (a + b) := by
+  unfold logsum
+  simp only [ScalarReal.eqb_iff, ScalarReal.ltb_iff, ScalarReal.log_eq, ScalarReal.exp_eq, ScalarReal.ofInt_eq,
+    ScalarReal.one_eq, add_eq, sub_eq]
+  split
+  · rename_i h
+    have hab : a = b := Real.log_injOn_pos (Set.mem_Ioi.mpr ha) (Set.mem_Ioi.mpr hb) h
+    rw [← Real.log_mul (ne_of_gt ha) (by norm_num)]
+    congr 1; rw [hab]; push_cast; ring
+  · split
+    · rw [Real.exp_sub, Real.exp_log ha, Real.exp_log hb, ← Real.log_mul (ne_of_gt ha) (by positivity)]
+      congr 1; field_simp
+    · rw [Real.exp_sub, Real.exp_log ha, Real.exp_log hb, ← Real.log_mul (ne_of_gt hb) (by positivity)]
+      congr 1; field_simp; ring
+
+theorem foldl_logsum_log (l : List ℝ) (hl : ∀ x ∈ l, 0 < x) (x : ℝ) (hx : 0 < x) :
+    (l.map Real.log).foldl logsum (Real.log x) = Real.log (x + l.sum) := by
+  induction l generalizing x with
+  | nil => simp
+  | cons y ys ih =>
+    have hy : 0 < y := hl y (List.mem_cons_self)
+    simp only [List.map_cons, List.foldl_cons, List.sum_cons]
+    rw [logsum_log x y hx hy, ih (fun z hz => hl z (List.mem_cons_of_mem _ hz)) (x + y) (by positivity), add_assoc]
+
+theorem vec_succ' {α : Type} (n : Nat) (g : Nat → α) : vec (n + 1) g = g 0 :: vec n (fun k => g (k + 1)) := by
+  simp [vec, List.range_succ_eq_map, List.map_map, Function.comp_def]
+
+theorem lseL_vec_log (n : Nat) (hn : 0 < n) (a : Nat → ℝ) (ha : ∀ k, 0 < a k) :
+    lseL (vec n (fun k => Real.log (a k))) = Real.log (∑ k ∈ range n, a k) := by
+  obtain ⟨m, rfl⟩ := Nat.exists_eq_succ_of_ne_zero (Nat.pos_iff_ne_zero.mp hn)
+  rw [vec_succ']
+  simp only [lseL]
+  have : vec m (fun k => Real.log (a (k + 1))) = ((List.range m).map (fun k => a (k + 1))).map Real.log := by
+    simp [vec, List.map_map, Function.comp_def]
+  rw [this, foldl_logsum_log _ (by intro x hx; simp only [List.mem_map] at hx; obtain ⟨k, _, rfl⟩ := hx; exact ha _) _ (ha 0)]
+  rw [sum_map_range, Finset.sum_range_succ', add_comm]
+
+def PosP (p : Params ℝ) : Prop := (∀ i j, 0 < p.P i j) ∧ (∀ k, 0 < p.pi k)
+def PosE (e : Emis ℝ) : Prop := ∀ j, 0 < e j
+def PosS (sites : List (Site ℝ)) : Prop := ∀ s ∈ sites, PosE s.2
+
+theorem sum_pos_of_pos (n : Nat) (hn : 0 < n) (a : Nat → ℝ) (ha : ∀ k, 0 < a k) : 0 < ∑ k ∈ range n, a k :=
+  Finset.sum_pos (fun k _ => ha k) (by simpa using Nat.pos_iff_ne_zero.mp hn)
+
+theorem initW_pos (p : Params ℝ) (hn : 0 < p.n) (hp : PosP p) (y : Nat) : 0 < initW p y := by
+  rw [initW_eq]; exact sum_pos_of_pos _ hn _ (fun k => mul_pos (hp.1 k y) (hp.2 k))
+
+theorem restartF_pos (p : Params ℝ) (hn : 0 < p.n) (hp : PosP p) (e : Emis ℝ) (he : PosE e) : ∀ j, 0 < restartF p e j :=
+  fun j => mul_pos (he j) (initW_pos p hn hp j)
+
+theorem stepF_pos (p : Params ℝ) (hn : 0 < p.n) (hp : PosP p) (e : Emis ℝ) (he : PosE e) (g : Nat → ℝ) (hg : ∀ k, 0 < g k) :
+    ∀ j, 0 < stepF p e g j :=
+  fun j => mul_pos (he j) (sum_pos_of_pos _ hn _ (fun k => mul_pos (hp.1 k j) (hg k)))
+
+/-- the log-space step computes the logarithm of the unscaled step -/
+theorem logTmp_eq (p : Params ℝ) (hn : 0 < p.n) (hp : PosP p) (b : Bool) (e : Emis ℝ) (he : PosE e)
+    (g : Nat → ℝ) (hg : ∀ k, 0 < g k) :
+    logTmp p b e (vec p.n (fun k => Real.log (g k)))
+      = vec p.n (fun j => Real.log (if b then restartF p e j else stepF p e g j)) := by
+  have key : ∀ (src : Nat → ℝ), (∀ k, 0 < src k) → ∀ j,
+      Scalar.log (e j) + lseL (List.zipWith (fun a b => a + b) (logCol p j) (vec p.n (fun k => Real.log (src k))))
+        = Real.log (e j * ∑ k ∈ range p.n, p.P k j * src k) := by
+    intro src hsrc j
+    have h1 : List.zipWith (fun a b => a + b) (logCol p j) (vec p.n (fun k => Real.log (src k)))
+        = vec p.n (fun k => Real.log (p.P k j * src k)) := by
+      unfold logCol vec; rw [zipWith_vec]
+      apply List.map_congr_left; intro k _
+      simp only [ScalarReal.log_eq]
+      rw [Real.log_mul (ne_of_gt (hp.1 k j)) (ne_of_gt (hsrc k))]
+    rw [h1, lseL_vec_log _ hn _ (fun k => mul_pos (hp.1 k j) (hsrc k))]
+    simp only [ScalarReal.log_eq]
+    rw [Real.log_mul (ne_of_gt (he j)) (ne_of_gt (sum_pos_of_pos _ hn _ (fun k => mul_pos (hp.1 k j) (hsrc k))))]
+  cases b with
+  | true =>
+    simp only [logTmp, if_true]
+    apply vec_congr; intro j _
+    rw [show logPi p = vec p.n (fun k => Real.log (p.pi k)) from rfl, key p.pi hp.2 j]
+    unfold restartF; rw [initW_eq]
+  | false =>
+    simp only [logTmp, Bool.false_eq_true, if_false]
+    apply vec_congr; intro j _
+    rw [key g hg j]; rfl
+
+theorem logLoop_eq (p : Params ℝ) (hn : 0 < p.n) (hp : PosP p) (rest : List (Site ℝ)) (hs : PosS rest)
+    (g : Nat → ℝ) (hg : ∀ k, 0 < g k) (acc : ℝ) (hacc : 0 < acc) :
+    Real.log (fwdULoop p rest acc (vec p.n g))
+      = Real.log acc + (logLoop p rest (vec p.n (fun k => Real.log (g k)))).2.sum := by
+  induction rest generalizing g acc with
+  | nil =>
+    simp only [fwdULoop, logLoop, List.sum_cons, List.sum_nil, add_zero, sumL_vec, mul_eq]
+    rw [lseL_vec_log _ hn _ hg, Real.log_mul (ne_of_gt hacc) (ne_of_gt (sum_pos_of_pos _ hn _ hg))]
+  | cons s rest ih =>
+    obtain ⟨b, e⟩ := s
+    have he : PosE e := hs (b, e) (List.mem_cons_self)
+    have hs' : PosS rest := fun s hs'' => hs s (List.mem_cons_of_mem _ hs'')
+    have hsum := sum_pos_of_pos _ hn _ hg
+    cases b with
+    | true =>
+      simp only [fwdULoop, logLoop, if_true]
+      rw [logTmp_eq p hn hp true e he g hg]
+      simp only [if_true]
+      rw [show restartTmp p e = vec p.n (restartF p e) from rfl,
+        ih hs' (restartF p e) (restartF_pos p hn hp e he) _ (by rw [sumL_vec]; exact mul_pos hacc hsum)]
+      simp only [List.sum_cons, sumL_vec, mul_eq]
+      rw [lseL_vec_log _ hn _ hg, Real.log_mul (ne_of_gt hacc) (ne_of_gt hsum)]
+      ring
+    | false =>
+      simp only [fwdULoop, logLoop, Bool.false_eq_true, if_false]
+      rw [logTmp_eq p hn hp false e he g hg]
+      simp only [Bool.false_eq_true, if_false]
+      have hv : (vec p.n fun j => e j * dot (col p j) (vec p.n g)) = vec p.n (stepF p e g) := by
+        apply vec_congr; intro j _; unfold col; rw [dot_vec]; rfl
+      rw [hv, ih hs' (stepF p e g) (stepF_pos p hn hp e he g hg) acc hacc]
+
+theorem logForward_ll (p : Params ℝ) (hn : 0 < p.n) (hp : PosP p) (e0 : Emis ℝ) (he0 : PosE e0)
+    (sites : List (Site ℝ)) (hs : PosS sites) :
+    (logForward p e0 sites).ll = Real.log (fwdU p e0 sites) := by
+  unfold logForward fwdU
+  simp only [sumL_sortDesc]
+  have h0 : logTmp p true e0 [] = vec p.n (fun j => Real.log (restartF p e0 j)) := by
+    simp only [logTmp, if_true]
+    have := logTmp_eq p hn hp true e0 he0 (fun _ => 1) (fun _ => one_pos)
+    simpa only [logTmp, if_true] using this
+  rw [h0, show restartTmp p e0 = vec p.n (restartF p e0) from rfl,
+    logLoop_eq p hn hp sites hs (restartF p e0) (restartF_pos p hn hp e0 he0) _ (by simp)]
+  simp
+
+/-! ### break-point control flow -/
+
+/-- break points as the property means them: strictly increasing positions in `1 … T-1` -/
+def ValidBreaks (T : Nat) (bps : List Nat) : Prop := bps.Pairwise (· < ·) ∧ ∀ b ∈ bps, 1 ≤ b ∧ b < T
+
+theorem fwdFlags_eq (T : Nat) (cnt i : Nat) (bps : List Nat) (hT : i + cnt = T)
+    (hs : bps.Pairwise (· < ·)) (hb : ∀ b ∈ bps, i ≤ b ∧ b < T) :
+    fwdFlags T cnt i bps = (List.range cnt).map (fun k => decide (i + k ∈ bps)) := by
+  induction cnt generalizing i bps with
+  | zero => simp [fwdFlags]
+  | succ cnt ih =>
+    rw [List.range_succ_eq_map, List.map_cons, List.map_map]
+    cases bps with
+    | nil =>
+      have : i < T := by omega
+      simp only [fwdFlags, nextBrk, this, if_true]
+      rw [ih (i + 1) [] (by omega) List.Pairwise.nil (by simp)]
+      simp
+    | cons b bs =>
+      have hb0 := hb b (List.mem_cons_self)
+      have hbs : ∀ x ∈ bs, b < x := (List.pairwise_cons.mp hs).1
+      by_cases hlt : i < b
+      · simp only [fwdFlags, nextBrk, hlt, if_true]
+        rw [ih (i + 1) (b :: bs) (by omega) hs (fun x hx => ⟨by
+          rcases List.mem_cons.mp hx with rfl | hx
+          · omega
+          · have := hbs x hx; omega, (hb x hx).2⟩)]
+        have hni : i ∉ b :: bs := by
+          intro h; rcases List.mem_cons.mp h with rfl | h
+          · omega
+          · have := hbs i h; omega
+        simp only [Nat.add_zero, hni, decide_false, List.cons.injEq, true_and]
+        apply List.map_congr_left; intro k _
+        simp only [Function.comp, Nat.succ_eq_add_one]
+        congr 2; omega
+      · have hib : i = b := by omega
+        subst hib
+        simp only [fwdFlags, nextBrk, Nat.lt_irrefl, if_false, List.tail_cons]
+        rw [ih (i + 1) bs (by omega) (List.pairwise_cons.mp hs).2 (fun x hx => ⟨by have := hbs x hx; omega, (hb x (List.mem_cons_of_mem _ hx)).2⟩)]
+        simp only [Nat.add_zero, List.mem_cons, true_or, decide_true, List.cons.injEq, true_and]
+        apply List.map_congr_left; intro k _
+        simp only [Function.comp, Nat.succ_eq_add_one]
+        have hne : i + (k + 1) ≠ i := by omega
+        have : (i + (k + 1) = i ∨ i + (k + 1) ∈ bs) ↔ i + 1 + k ∈ bs := by
+          rw [show i + (k + 1) = i + 1 + k by omega]; constructor
+          · rintro (h | h); · omega
+            · exact h
+          · intro h; exact Or.inr h
+        simp only [decide_eq_decide]; exact this.symm
+
 end Bpp.Hmm
